@@ -331,6 +331,69 @@ func c06run(c *hx.Ctx, cs c06case) error {
 				}
 			}
 		}
+		// a replay hidden behind the one transaction that may cross the block gas limit: the strict path must still look at
+		// everything behind it (processTxs on [crossing transaction, replayed transaction] is an error; the crossing
+		// transaction alone is fine)
+		if len(canon) > 0 && b%7 == 3 && n.App.State.ValidationPeriod() == 0 {
+			rich, best := -1, new(big.Int)
+			for i := range w.Keys {
+				if bal := n.App.State.GetBalance(w.Addrs[i]); bal.Cmp(best) > 0 {
+					rich, best = i, bal
+				}
+			}
+			capGas := types.MaxBlockSize(n.Cfg.Consensus.EnableUpgrade11)
+			fpg := n.App.State.FeePerGas()
+			minFpg := fee.GetFeePerGasForNetwork(n.App.ValidatorsCache.NetworkSize())
+			if rich >= 0 && fpg != nil && fpg.Sign() > 0 && minFpg.Sign() > 0 {
+				// the largest max fee validation admits buys exactly the block's gas at the minimal rate, so one transaction
+				// cannot cross the limit on its own: two of 55 % each do, the second one being the crossing transaction
+				maxFee := new(big.Int).Mul(minFpg, big.NewInt(int64(capGas)))
+				need := new(big.Int).Mul(fpg, big.NewInt(int64(capGas)*2))
+				if best.Cmp(need) > 0 {
+					to := w.Addrs[0]
+					nn, ep := effNonce(rich)
+					if ep != n.App.State.Epoch() {
+						nn = 0
+					}
+					mk := func(k uint32) *types.Transaction {
+						tx, _ := types.SignTx(&types.Transaction{Type: types.SendTx, To: &to, Amount: chainfx.Dna(1), MaxFee: maxFee,
+							Epoch: n.App.State.Epoch(), AccountNonce: nn + k, Payload: make([]byte, int(capGas)*55/1000)}, w.Keys[rich])
+						return tx
+					}
+					big1, big2 := mk(1), mk(2)
+					hdr := n.Chain.Head
+					alone, pair := false, false
+					var usedAlone uint64
+					cs1, _ := n.App.ForCheck(hdr.Height())
+					func() {
+						defer func() { recover() }()
+						_, _, _, g, e := n.Chain.FxProcessTxs(cs1, hdr, []*types.Transaction{big1, big2})
+						alone, usedAlone = e == nil, g
+						if e != nil && os.Getenv("C06_DEBUG") != "" {
+							fmt.Fprintln(os.Stderr, "DEBUG big txs alone:", e)
+						}
+					}()
+					if alone && usedAlone >= capGas {
+						t := canon[len(canon)-1-r.Intn(min(len(canon), 5))]
+						cs2, _ := n.App.ForCheck(hdr.Height())
+						func() {
+							defer func() { recover() }()
+							_, _, _, _, e := n.Chain.FxProcessTxs(cs2, hdr, []*types.Transaction{big1, big2, t.tx})
+							pair = e == nil
+						}()
+						c.Hit("replay-attempt:behind-the-gas-limit-crossing-tx")
+						if pair {
+							fail("C06:replay-accepted:behind-gas-limit", fmt.Sprintf("height %d: processTxs accepts a body [two %d-byte transactions, the second crossing the block gas limit, then the included tx %s (sender %d epoch %d nonce %d)]: what follows the crossing transaction is not looked at",
+								hdr.Height(), len(big1.Payload), t.tx.Hash().Hex(), t.sender, t.tx.Epoch, t.tx.AccountNonce))
+						}
+					} else {
+						c.Hit("gas-limit-crossing-txs-not-applicable")
+					}
+				} else {
+					c.Hit("gas-limit-crossing-txs-unaffordable")
+				}
+			}
+		}
 		// every transaction a dust account ever sent, re-offered after every block (its nonce record may have been cleared and
 		// the account funded again: the epoch number is the only guard left)
 		for _, t := range dustTxs {
